@@ -105,6 +105,12 @@ def scenarios(rng: random.Random, tier: str):
                    "rx 1 " + nodegen.ccr(n(), 7200, "peer1.x", flags=208), "rx 1 " + nodegen.ccr(n(), 7201, "peer1.x", flags=208),
                    "ans 0 1 2001", "rx 1 " + nodegen.ccr(n(), 7201, "peer1.x", flags=208)]
             out.insert(0, pre + " | " + " | ".join(evs))
+    # an answered id comes back without the T flag (a new request: delivered) and, while that one is still pending, with it
+    for rq in (1, 2, 4):
+        pre = cfg_line(rq) + " | start | acc | rx 0 " + nodegen.cer("peer1.x", "4", n(), n())
+        evs = ["rx 0 " + nodegen.ccr(n(), 7600, "peer1.x"), "ans 0 0 2001", "rx 0 " + nodegen.ccr(n(), 7600, "peer1.x"),
+               "rx 0 " + nodegen.ccr(n(), 7600, "peer1.x", flags=208), "ans 0 1 2001", "rx 0 " + nodegen.ccr(n(), 7600, "peer1.x", flags=208)]
+        out.insert(0, pre + " | " + " | ".join(evs))
     # the node option that switches the validation of received requests off has nothing to do with repeats
     for rq in (1, 2, 4):
         pre = cfg_line(rq).replace("NODE ", "NODE noval=1;") + " | start | acc | rx 0 " + nodegen.cer("peer1.x", "4", n(), n())
